@@ -41,6 +41,7 @@ func init() {
 			cur = append(cur, a[i])
 		}
 		ops := a[i:]
+		shareCache = map[string]interface{}{}
 		projs := make([]project, len(specs))
 		objs := make([]*jschema.JSchema, len(specs))
 		berr := make([]string, len(specs))
